@@ -1,3 +1,4 @@
+import EtVerif.Props.C13b
 import EtVerif.Props.TieStore
 import EtVerif.Props.C13
 #print axioms EtVerif.C13.absStore_set
@@ -15,3 +16,14 @@ import EtVerif.Props.C13
 #print axioms EtVerif.C13.get_exact
 #print axioms EtVerif.C13.get_put_roundtrip
 #print axioms EtVerif.Ties.source_store_safe
+#print axioms EtVerif.C13b.conc_invariant
+#print axioms EtVerif.C13b.content_is_fold
+#print axioms EtVerif.C13b.linearizable
+#print axioms EtVerif.C13b.linearizable_no_merge
+#print axioms EtVerif.C13b.kvSet_eq_update
+#print axioms EtVerif.C13b.specStep_eq_C13
+#print axioms EtVerif.C13b.runSpec_eq_C13
+#print axioms EtVerif.C13b.linearizable_C13
+#print axioms EtVerif.C13b.runSpec_mem
+#print axioms EtVerif.C13b.self_copy_never_created
+#print axioms EtVerif.C13b.stored_ref_put_not_linearizable
